@@ -677,7 +677,7 @@ def check_chan(prop, tier, seed):
     for v in variants:
         sims[v], _ = build(v)
     # Determinism first: nothing is believed before it holds.
-    det_mod = 97 if tier == 'thorough' else 1499
+    det_mod = 4001 if tier == 'thorough' else 1499
     det_runs = determinism_audit(sims[variants[0]], 'chan', tier, seed,
                                  os.path.join(outdir, 'det'), det_mod)
     for v in variants:
